@@ -16,7 +16,9 @@ import (
 	"net/netip"
 	"net/url"
 	"path"
+	"runtime"
 	"strings"
+	"sync"
 	"time"
 
 	"github.com/AdguardTeam/AdGuardDNS/internal/access"
@@ -330,8 +332,10 @@ type srvVariant struct {
 	linked  bool
 	bindK   int
 	domains []string
-	st      *fixture
-	lines   []string
+	// profilesOff: the server group has profiles_enabled = false.
+	profilesOff bool
+	st          *fixture
+	lines       []string
 }
 
 var protoNames = map[agd.Protocol]string{agd.ProtoInvalid: "invalid", agd.ProtoDNS: "dns", agd.ProtoDNSCrypt: "dnscrypt",
@@ -379,6 +383,30 @@ type fixture struct {
 	st   *stack.Stack
 	cur  *dbState
 	last seen
+
+	// Overlap campaign: the first request that reaches blockAt ("handler":
+	// the handler behind all middlewares, "db": a profile-database lookup)
+	// signals entered and waits for release.
+	mu       sync.Mutex
+	blockAt  string
+	entered  chan struct{}
+	release  chan struct{}
+	seenByID map[uint16]seen
+}
+
+// gate blocks the calling request once if point is the armed blocking point.
+func (fx *fixture) gate(point string) {
+	fx.mu.Lock()
+	if fx.blockAt != point {
+		fx.mu.Unlock()
+
+		return
+	}
+	fx.blockAt = ""
+	entered, release := fx.entered, fx.release
+	fx.mu.Unlock()
+	close(entered)
+	<-release
 }
 
 type world struct {
@@ -388,9 +416,21 @@ type world struct {
 
 func buildWorld() (w *world) {
 	w = &world{}
-	for di, doms := range domainSets {
+	type fxSpec struct {
+		doms []string
+		off  bool
+	}
+	specs := []fxSpec{}
+	for _, doms := range domainSets {
+		specs = append(specs, fxSpec{doms: doms})
+	}
+	// A server group with profiles_enabled = false (dnssvc.newDeviceFinder
+	// installs the empty finder): nothing may ever be recognised there.
+	specs = append(specs, fxSpec{doms: domainSets[1], off: true})
+	for di, spec := range specs {
+		doms := spec.doms
 		fx := &fixture{}
-		get := func() *dbState { return fx.cur }
+		get := func() *dbState { fx.gate("db"); return fx.cur }
 		pdb := &agdtest.ProfileDB{
 			OnCreateAutoDevice: func(_ context.Context, id agd.ProfileID, h agd.HumanID, dt agd.DeviceType) (*agd.Profile, *agd.Device, error) {
 				return get().create[[3]string{string(id), string(h), fmt.Sprint(int(dt))}].ret()
@@ -417,21 +457,25 @@ func buildWorld() (w *world) {
 					name := fmt.Sprintf("s%d_%s_%s_%d", di, protoNames[proto], b2s(linked), bk)
 					srv := stack.NewServer(name, proto, linked, bd...)
 					servers = append(servers, srv)
-					lines := []string{fmt.Sprintf("srv %s %s", protoNames[proto], b2s(linked))}
+					lines := []string{fmt.Sprintf("srv %s %s %s", protoNames[proto], b2s(linked), b2s(!spec.off))}
 					lines = append(lines, blines...)
 					for _, d := range doms {
 						lines = append(lines, "dom "+hx(d))
 					}
-					vs = append(vs, &srvVariant{srv: srv, proto: proto, linked: linked, bindK: bk, domains: doms, st: fx, lines: lines})
+					vs = append(vs, &srvVariant{srv: srv, proto: proto, linked: linked, bindK: bk, domains: doms, profilesOff: spec.off, st: fx, lines: lines})
 				}
 			}
 		}
 		fx.st = stack.New(&stack.Config{
 			ProfileDB:     pdb,
 			Servers:       servers,
-			DeviceDomains: append([]string{}, doms...),
+			DeviceDomains:    append([]string{}, doms...),
+			ProfilesDisabled: spec.off,
 			Upstream: dnsserver.HandlerFunc(func(ctx context.Context, rw dnsserver.ResponseWriter, req *dns.Msg) error {
 				ri := agd.MustRequestInfoFromContext(ctx)
+				// Only after a possible wait: what this request is attributed
+				// to when it is finally processed.
+				fx.gate("handler")
 				s := seen{reached: true}
 				switch res := ri.DeviceResult.(type) {
 				case nil:
@@ -449,7 +493,12 @@ func buildWorld() (w *world) {
 					s.kind = fmt.Sprintf("%T", res)
 				}
 				s.p, s.d = ri.DeviceData()
+				fx.mu.Lock()
 				fx.last = s
+				if fx.seenByID != nil {
+					fx.seenByID[req.Id] = s
+				}
+				fx.mu.Unlock()
 				resp := (&dns.Msg{}).SetReply(req)
 
 				return rw.WriteMsg(ctx, req, resp)
@@ -548,13 +597,9 @@ type outcome struct {
 // serve runs one request through the real stack.
 func serve(v *srvVariant, db *dbState, q *request) (o outcome) { return serveRI(v, db, q, nil) }
 
-// serveRI is serve with the request information produced by the real DoH
-// server code instead of the one derived from q.
-func serveRI(v *srvVariant, db *dbState, q *request, override *dnsserver.RequestInfo) (o outcome) {
-	fx := v.st
-	fx.cur = db
-	fx.last = seen{}
-	ri := &dnsserver.RequestInfo{TLSServerName: q.sni}
+// reqInfoFor is the transport-level request information for q on v.
+func reqInfoFor(v *srvVariant, q *request, override *dnsserver.RequestInfo) (ri *dnsserver.RequestInfo) {
+	ri = &dnsserver.RequestInfo{TLSServerName: q.sni}
 	if override != nil {
 		ri = override
 	} else if v.proto == agd.ProtoDoH {
@@ -567,20 +612,30 @@ func serveRI(v *srvVariant, db *dbState, q *request, override *dnsserver.Request
 		ri.URL = &url.URL{Path: q.path}
 		ri.Userinfo = q.userinfo()
 	}
-	func() {
-		defer func() {
-			if p := recover(); p != nil {
-				o.panicked = fmt.Sprint(p)
-			}
-		}()
-		out := fx.st.Serve(context.Background(), &stack.Req{Server: v.srv, Msg: q.msg(), Remote: netip.AddrPortFrom(q.rip, 1234),
-			Local: q.local, ReqInfo: ri})
-		o.resp = out.Resp != nil
-		if out.Err != nil {
-			o.errText = out.Err.Error()
+
+	return ri
+}
+
+// call runs one request through the handler of v and fills the parts of o
+// that the caller of the stack sees.
+func call(v *srvVariant, q *request, ri *dnsserver.RequestInfo, id uint16, o *outcome) {
+	defer func() {
+		if p := recover(); p != nil {
+			o.panicked = fmt.Sprint(p)
 		}
 	}()
-	o.seen = fx.last
+	m := q.msg()
+	m.Id = id
+	out := v.st.st.Serve(context.Background(), &stack.Req{Server: v.srv, Msg: m, Remote: netip.AddrPortFrom(q.rip, 1234),
+		Local: q.local, ReqInfo: ri})
+	o.resp = out.Resp != nil
+	if out.Err != nil {
+		o.errText = out.Err.Error()
+	}
+}
+
+// takeEffects moves the billing and query-log records written so far into o.
+func takeEffects(fx *fixture, o *outcome) {
 	logs, bills := fx.st.Effects.TakeLog()
 	for _, b := range bills {
 		o.billDevs = append(o.billDevs, b.Dev)
@@ -588,8 +643,66 @@ func serveRI(v *srvVariant, db *dbState, q *request, override *dnsserver.Request
 	for _, l := range logs {
 		o.logIDs = append(o.logIDs, [2]string{string(l.ProfileID), string(l.DeviceID)})
 	}
+}
+
+// serveRI is serve with the request information produced by the real DoH
+// server code instead of the one derived from q.
+func serveRI(v *srvVariant, db *dbState, q *request, override *dnsserver.RequestInfo) (o outcome) {
+	fx := v.st
+	fx.cur = db
+	fx.last = seen{}
+	call(v, q, reqInfoFor(v, q, override), 7, &o)
+	o.seen = fx.last
+	takeEffects(fx, &o)
 
 	return o
+}
+
+// serveOverlap serves two requests of one server with their lifetimes
+// overlapping: first is started and parked at the blocking point (inside the
+// handler behind all middlewares, or inside its first profile-database
+// lookup); while it is parked, second is served from start to end; then first
+// is released and completes.  Every request must be attributed by its own
+// content only, whatever else is in flight.  If first never reaches the
+// blocking point, the two are simply served one after the other.
+func serveOverlap(v *srvVariant, db *dbState, first, second *request, point string) (o1, o2 outcome, overlapped bool) {
+	fx := v.st
+	fx.cur = db
+	fx.last = seen{}
+	fx.mu.Lock()
+	fx.blockAt, fx.entered, fx.release = point, make(chan struct{}), make(chan struct{})
+	fx.seenByID = map[uint16]seen{}
+	entered, release := fx.entered, fx.release
+	fx.mu.Unlock()
+	done := make(chan struct{})
+	go func() {
+		defer close(done)
+		call(v, first, reqInfoFor(v, first, nil), 1, &o1)
+	}()
+	select {
+	case <-entered:
+		overlapped = true
+	case <-done:
+	}
+	if !overlapped {
+		takeEffects(fx, &o1)
+	}
+	fx.mu.Lock()
+	fx.blockAt = ""
+	fx.mu.Unlock()
+	call(v, second, reqInfoFor(v, second, nil), 2, &o2)
+	takeEffects(fx, &o2)
+	if overlapped {
+		close(release)
+		<-done
+		takeEffects(fx, &o1)
+	}
+	fx.mu.Lock()
+	o1.seen, o2.seen = fx.seenByID[1], fx.seenByID[2]
+	fx.seenByID = nil
+	fx.mu.Unlock()
+
+	return o1, o2, overlapped
 }
 
 var authErrNames = map[string]string{"basic authentication failed": "failed", "no password": "nopassword",
@@ -755,6 +868,13 @@ func (c *checker) oracle(v *srvVariant, db *dbState, q *request, o *outcome, rep
 	}
 	if o.reached && (o.kind == "ok") != recognised {
 		r.Violate("profile-exposed-without-ok", "DeviceData and DeviceResult kind disagree: "+o.kind, replay())
+	}
+	if v.profilesOff {
+		if recognised || !o.reached || !o.resp {
+			r.Violate("recognised-with-profiles-disabled", proto+" request on a server group without profiles was not served as anonymous: "+o.canon(), replay())
+		}
+
+		return
 	}
 	if v.proto == agd.ProtoDNSCrypt || v.proto == agd.ProtoInvalid {
 		if recognised || !o.reached || !o.resp {
@@ -1104,6 +1224,7 @@ func main() {
 	randomCampaign(o, rn, w)
 	nonASCIICampaign(o, rn, w)
 	httpCampaign(o, rn, w)
+	overlapCampaign(o, rn, w)
 	if o.Thorough() {
 		exhaustiveCampaign(o, rn, w)
 	}
@@ -1121,7 +1242,7 @@ func randomCampaign(o *hlib.Opts, rn *runner, w *world) {
 		v := pick(rng, w.variants)
 		// Favour the transports that can recognise devices.
 		if rng.IntN(4) > 0 {
-			for v.proto == agd.ProtoDNSCrypt || v.proto == agd.ProtoInvalid {
+			for v.proto == agd.ProtoDNSCrypt || v.proto == agd.ProtoInvalid || v.profilesOff {
 				v = pick(rng, w.variants)
 			}
 		}
@@ -1167,5 +1288,55 @@ func nonASCIICampaign(o *hlib.Opts, rn *runner, w *world) {
 		})
 		rn.r.Count("nonascii." + strings.SplitN(out.canon(), " ", 2)[0])
 		rn.r.Case("nonascii|"+string(v.srv.Name)+"|"+line, false)
+	}
+}
+
+// overlapCampaign: pairs of requests of one server whose lifetimes overlap
+// (see serveOverlap).  The scheduler is pinned to one P for the duration, so
+// that per-P free lists (sync.Pool) hand a prematurely released object to the
+// very next taker deterministically.
+func overlapCampaign(o *hlib.Opts, rn *runner, w *world) {
+	rng := o.Rand("overlap")
+	n := 1500
+	if o.Thorough() {
+		n = 15000
+	}
+	prev := runtime.GOMAXPROCS(1)
+	defer runtime.GOMAXPROCS(prev)
+	for i := 0; i < n; i++ {
+		v := pick(rng, w.variants)
+		for v.proto == agd.ProtoDNSCrypt || v.proto == agd.ProtoInvalid || (v.profilesOff && rng.IntN(4) > 0) {
+			v = pick(rng, w.variants)
+		}
+		db := genDB(rng.IntN, randAuth(rng))
+		first, second := genRequest(rng, v, db), genRequest(rng, v, db)
+		point := "handler"
+		if rng.IntN(3) == 0 {
+			point = "db"
+		}
+		o1, o2, overlapped := serveOverlap(v, db, first, second, point)
+		rn.lines = append(rn.lines, v.lines...)
+		rn.lines = append(rn.lines, db.lines...)
+		l1, l2 := first.line(), second.line()
+		for k, pr := range []struct {
+			q    *request
+			o    *outcome
+			line string
+		}{{first, &o1, l1}, {second, &o2, l2}} {
+			out, line := pr.o, pr.line
+			replay := func() any {
+				return map[string]any{"campaign": "overlap", "server": string(v.srv.Name), "overlapped": overlapped, "blocked_at": point,
+					"note": "request 1 is parked at blocked_at while request 2 is served completely; this finding is about request " + fmt.Sprint(k+1),
+					"ops": append(append(append([]string{}, v.lines...), db.lines...), l1, l2), "observed": out.canon()}
+			}
+			rn.c.oracle(v, db, pr.q, out, replay)
+			rn.pend = append(rn.pend, pending{lineIdx: len(rn.lines), got: out.canon(), ops: replay})
+			rn.lines = append(rn.lines, line)
+			rn.r.Count("overlap." + b2s(overlapped) + "." + point + "." + strings.SplitN(out.canon(), " ", 2)[0])
+		}
+		rn.r.Case("overlap|"+string(v.srv.Name)+"|"+dbKey(db)+"|"+point+"|"+l1+"|"+l2, overlapped)
+		if len(rn.lines) > 20000 {
+			rn.flush()
+		}
 	}
 }
